@@ -74,6 +74,45 @@ func hasInconsistentTypesDiag(diags hcl.Diagnostics) bool {
 	return false
 }
 
+// tupleBecameList reports whether got has a list (map) where the implied type has a tuple (object): the
+// shape of the known finding blocklist-unifies-nested-tuples-to-list (BlockListSpec /
+// BlockSetSpec unify the values of their blocks with cty's unifier, which falls back from
+// a tuple type to a list type when the element-wise unification has no conversion).
+func tupleBecameList(got, want cty.Type) bool {
+	switch {
+	case want == cty.DynamicPseudoType:
+		return false
+	case want.IsTupleType():
+		if got.IsListType() {
+			return true
+		}
+		if got.IsTupleType() && got.Length() == want.Length() {
+			for i, w := range want.TupleElementTypes() {
+				if tupleBecameList(got.TupleElementType(i), w) {
+					return true
+				}
+			}
+		}
+	case want.IsCollectionType():
+		if got.IsCollectionType() {
+			return tupleBecameList(got.ElementType(), want.ElementType())
+		}
+	case want.IsObjectType():
+		if got.IsMapType() {
+			// (the same fallback exists for object types: they unify to a map)
+			return true
+		}
+		if got.IsObjectType() {
+			for n, w := range want.AttributeTypes() {
+				if got.HasAttribute(n) && tupleBecameList(got.AttributeType(n), w) {
+					return true
+				}
+			}
+		}
+	}
+	return false
+}
+
 // hasMultiLabelBlockMap reports whether the spec contains a BlockMapSpec with two or more label names.
 func hasMultiLabelBlockMap(s *gen.SpecM) bool {
 	if s == nil {
@@ -115,6 +154,10 @@ func checkDecode(c *hx.Case, what string, body hcl.Body, spec hcldec.Spec, ms *g
 		}
 		if hasInconsistentTypesDiag(diags) && c.Known("blocklist-inconsistent-types-returns-dynamicval") {
 			c.Class("excluded_known_blocklist_dynamicval")
+			return
+		}
+		if diags.HasErrors() && tupleBecameList(gt, implied.WithoutOptionalAttributesDeep()) && c.Known("blocklist-unifies-nested-tuples-to-list") {
+			c.Class("excluded_known_blocklist_tuple_to_list")
 			return
 		}
 		c.Set("decoded", got.GoString())
